@@ -117,6 +117,12 @@ func domains() []domain {
 	add("time.Duration", time.Duration(0), func(r *vmon.Rng) interface{} {
 		return pick(r, time.Duration(0), time.Second, 1000*time.Millisecond, time.Minute, time.Duration(1), time.Duration(-1))
 	})
+	// the same for every other kind of number a named type can have
+	add("uintptr with String()", Handle(0), func(r *vmon.Rng) interface{} { return Handle(r.Intn(6)) })
+	add("uint16 with String()", Port(0), func(r *vmon.Rng) interface{} { return Port(r.Intn(6)) })
+	add("int8 with String()", Tiny(0), func(r *vmon.Rng) interface{} { return Tiny(r.Intn(6) - 3) })
+	add("uint64 with String()", Mask(0), func(r *vmon.Rng) interface{} { return Mask(uint64(r.Intn(6)) << 60) })
+	add("float32 with String()", Ratio(0), func(r *vmon.Rng) interface{} { return pick(r, Ratio(0.25), Ratio(0.26), Ratio(0.3), Ratio(-0.25)) })
 	add("float with String()", Celsius(0), func(r *vmon.Rng) interface{} {
 		return pick(r, Celsius(20.04), Celsius(20.01), Celsius(20), Celsius(-3.5))
 	})
@@ -282,6 +288,32 @@ func (l Level) String() string {
 	return "unknown"
 }
 
+// opaque named numbers whose text says nothing (or not enough) about the value
+type Handle uintptr
+
+func (Handle) String() string { return "handle" }
+
+type Port uint16
+
+func (p Port) String() string { return fmt.Sprintf("port(%d)", p/2) }
+
+type Tiny int8
+
+func (t Tiny) String() string {
+	if t < 0 {
+		return "neg"
+	}
+	return "nonneg"
+}
+
+type Mask uint64
+
+func (Mask) Error() string { return "mask" }
+
+type Ratio float32
+
+func (r Ratio) String() string { return fmt.Sprintf("%.1f", float32(r)) }
+
 // Celsius prints rounded.
 type Celsius float64
 
@@ -337,6 +369,27 @@ func TestC18(t *testing.T) {
 	rng := vmon.NewRng(vmon.Seed(), uint64(1800+shard))
 	npairs := vmon.EnvInt("VERIF_C18_PAIRS", 20000)
 	ds := domains()
+	// one Any object used for parameters of different types (the exported arg.AnyValues is such an object): resolving it
+	// for another parameter does not change what it answers for the first
+	if shard == 0 {
+		for _, shared := range []arg.Expr{arg.Any(), arg.Any()} {
+			for i, d1 := range ds {
+				d2 := ds[(i*7+3)%len(ds)]
+				v1, v2 := d1.gen(rng), d2.gen(rng)
+				ok1, p1 := evalExpr(shared, d1.typ, v1)
+				ok2, p2 := evalExpr(shared, d2.typ, v2)
+				// the first use again, as its When would evaluate it: no fresh Resolve in between
+				ok3, err3 := shared.Eval([]reflect.Value{typed(d1.typ, v1)}, false)
+				rep.Eval(3)
+				if p1 != nil || p2 != nil || err3 != nil || !ok1 || !ok2 || !ok3 {
+					rep.Violate("C18/any-rejects", fmt.Sprintf("one Any object resolved for %s, then for %s: answers %v (%v), %v (%v), and for the %s value again %v (%v); Any accepts everything", d1.typ, d2.typ, ok1, p1, ok2, p2, d1.typ, ok3, err3),
+						map[string]interface{}{"first": d1.name, "second": d2.name})
+					break
+				}
+			}
+		}
+		rep.Class("any/one-object-for-several-parameter-types")
+	}
 	// interface domains: interface{} holding values of every other domain (same dynamic type on both sides)
 	nd := len(ds)
 	ifaceT := reflect.TypeOf((*interface{})(nil)).Elem()
